@@ -30,7 +30,7 @@ class Rx(object):
     def feed(self, data):
         ''' -> dict(decode_error, escaped, accepted, crc_fail, reenc) '''
         out = {'decode_error': None, 'escaped': None, 'accepted': False, 'crc_fail': None, 'reenc': None,
-               'subset': False, 'utf8': False}
+               'subset': False, 'utf8': False, 'audit': []}
         try:
             probe = self.R['Bundle'](data)
         except Exception as e:  # noqa
@@ -44,7 +44,9 @@ class Rx(object):
                 out['crc_fail'] = 'raised %s' % type(e).__name__
             try:
                 out['reenc'] = bytes(probe)
-                out['subset'] = G.in_subset(G.real_observable(probe))
+                obs = G.real_observable(probe)
+                out['subset'] = G.in_subset(obs)
+                out['audit'] = G.reencoded_crc_audit(out['reenc'], obs)
             except Exception as e:  # noqa
                 out['reenc'] = None
         G.agent_reset(self.agent)
@@ -182,6 +184,87 @@ def check_output(chk, rx, specs):
                 chk.corr_break('OUT-2: model CRC check rejects octets transmitted by the agent', rp)
 
 
+def judge_cases(chk, rx, data, cases, stream):
+    ''' cases = [(kind, bits-or-None, corrupted octets)] of the valid bundle `data`: run each through the real
+    receive path and the model, apply the monitors '''
+    own = {'dtn': b'//node/'.hex()}
+    gates = chk.driver([{'op': 'bp.gate', 'hex': c[2].hex(), 'own': own} for c in cases])
+    for (kind, bits, bad), g in zip(cases, gates):
+        r = rx.feed(bad)
+        verdict, detail = G.octet_crc_verdict(bad)
+        replay = {'stream': stream, 'kind': kind, 'bits': bits, 'original_hex': data.hex(), 'corrupted_hex': bad.hex()}
+        chk.case(replay, nontrivial=True)
+        chk.count(stream + ':%s' % kind)
+        if verdict:
+            # impossible for a burst of span <= width in the covered part (C08_burst); can only be a
+            # pattern straddling the covered octets and the CRC field
+            chk.count(stream + ':corruption leaves the octet CRC valid (straddles the CRC field)')
+        if r['decode_error']:
+            chk.count(stream + ':undecodable (raises before recv_bundle) %s' % r['decode_error'])
+            if r['accepted']:
+                chk.violation('C08:undecodable-but-effects', 'decoding raised yet the agent state changed', replay)
+        elif r['accepted']:
+            chk.count(stream + ':decodes, accepted')
+        else:
+            chk.count(stream + ':decodes, dropped')
+        # ----- monitor on the implementation
+        if r['accepted'] and not verdict:
+            replay['delta'] = r['delta']
+            replay['octet_verdict'] = detail
+            replay['real_check_all_crc'] = r['crc_fail']
+            if r['reenc'] != bad:
+                replay['reencoded_hex'] = r['reenc'].hex() if r['reenc'] is not None else None
+                cls = d20_class(data, bad, detail)
+                replay['class'] = cls
+                chk.count(stream + ':accepted-corruption class=%s' % cls)
+                if cls not in _D20_SEEN:
+                    _D20_SEEN[cls] = True
+                    chk.notes.append('accepted corruption, class %s: original %s corrupted %s' % (cls, data.hex(), bad.hex()))
+                chk.violation('C08:reencode-normalises-corruption',
+                              'a bundle with a corrupted CRC-protected block was accepted (recorded as seen / '
+                              'processed): the CRC is checked over a re-encoding of the decoded fields, which '
+                              'differs from the received octets', replay)
+            else:
+                chk.violation('C08:bad-crc-accepted', 'a bundle whose block CRC is wrong over the received '
+                              'octets was accepted', replay)
+        if r['accepted'] and r['audit']:
+            replay['delta'] = r['delta']
+            replay['failing_blocks'] = r['audit']
+            replay['real_check_all_crc'] = r['crc_fail']
+            chk.violation('C08:gate-passed-failing-block',
+                          'the agent accepted a bundle in which a block with a non-zero CRC type has no CRC value, a '
+                          'value of the wrong length, or a value that is not the CRC of the block\'s own encoding '
+                          '(independent bit-at-a-time CRC over the re-encoded block): %s' % r['audit'], replay)
+        # ----- correspondence with the model
+        m_dec = bool(g.get('decoded'))
+        if m_dec != (r['decode_error'] is None):
+            if m_dec and (g.get('flags', 0) & 2):
+                chk.count(stream + ':outside-model admin payload (opaque in the model) fails to parse')
+            elif not m_dec and g.get('raw') and r['decode_error'] is None:
+                chk.count(stream + ':outside-model EID authority (non-ASCII or brackets: urlsplit NFKC / IPv6 checks)')
+            elif m_dec and r['utf8']:
+                chk.count(stream + ':outside-model text string that is not UTF-8')
+            elif not m_dec and r['decode_error'] is None and (r['reenc'] != bad or not r['subset']):
+                chk.count(stream + ':lenient real decoder (outside the supported subset)')
+            else:
+                replay['lean'] = g
+                replay['real'] = {k: r[k] for k in ('decode_error', 'crc_fail', 'accepted')}
+                chk.corr_break(stream + ': decode class differs (real %s, model %s)' % (r['decode_error'], m_dec), replay)
+            continue
+        if not m_dec:
+            continue
+        m_fail = sorted(set(g.get('fail', [])))
+        m_acc = g.get('seen') == 1
+        if m_fail != r['crc_fail'] or m_acc != r['accepted']:
+            if (g.get('flags', 0) & 2) and g.get('reenc') != (r['reenc'].hex() if r['reenc'] else None):
+                chk.count(stream + ':outside-model re-encoding of a parsed admin record')
+                continue
+            replay['lean'] = {k: g.get(k) for k in ('fail', 'seen', 'effects')}
+            replay['real'] = {k: r[k] for k in ('crc_fail', 'accepted')}
+            chk.corr_break(stream + ': CRC gate outcome differs between the agent and the model', replay)
+        chk.cov['traces_validated_against_impl'] += 1
+
+
 def check_input(chk, rx, spec, bursts_per_pos, stride, budget=None):
     ''' flips / bursts of one bundle through the real receive path and the model '''
     b = G.real_bundle(spec)
@@ -210,74 +293,7 @@ def check_input(chk, rx, spec, bursts_per_pos, stride, budget=None):
     cases = [c for c in cases if not G.bomb_screen(c[2])]
     if nb != len(cases):
         chk.count('IN:not run: uint >= 2^17 in a byte-string slot (BstrField.m2i would allocate that many octets)', nb - len(cases))
-    gates = chk.driver([{'op': 'bp.gate', 'hex': c[2].hex(), 'own': own} for c in cases])
-    crcs = []
-    for (kind, bits, bad), g in zip(cases, gates):
-        r = rx.feed(bad)
-        verdict, detail = G.octet_crc_verdict(bad)
-        replay = {'stream': 'IN', 'kind': kind, 'bits': bits, 'original_hex': data.hex(), 'corrupted_hex': bad.hex()}
-        chk.case(replay, nontrivial=True)
-        chk.count('IN:%s' % kind)
-        if verdict:
-            # impossible for a burst of span <= width in the covered part (C08_burst); can only be a
-            # pattern straddling the covered octets and the CRC field
-            chk.count('IN:corruption leaves the octet CRC valid (straddles the CRC field)')
-        if r['decode_error']:
-            chk.count('IN:undecodable (raises before recv_bundle) %s' % r['decode_error'])
-            if r['accepted']:
-                chk.violation('C08:undecodable-but-effects', 'decoding raised yet the agent state changed', replay)
-        elif r['accepted']:
-            chk.count('IN:decodes, accepted')
-        else:
-            chk.count('IN:decodes, dropped')
-        # ----- monitor on the implementation
-        if r['accepted'] and not verdict:
-            replay['delta'] = r['delta']
-            replay['octet_verdict'] = detail
-            replay['real_check_all_crc'] = r['crc_fail']
-            if r['reenc'] != bad:
-                replay['reencoded_hex'] = r['reenc'].hex() if r['reenc'] is not None else None
-                cls = d20_class(data, bad, detail)
-                replay['class'] = cls
-                chk.count('IN:accepted-corruption class=%s' % cls)
-                if cls not in _D20_SEEN:
-                    _D20_SEEN[cls] = True
-                    chk.notes.append('accepted corruption, class %s: original %s corrupted %s' % (cls, data.hex(), bad.hex()))
-                chk.violation('C08:reencode-normalises-corruption',
-                              'a bundle with a corrupted CRC-protected block was accepted (recorded as seen / '
-                              'processed): the CRC is checked over a re-encoding of the decoded fields, which '
-                              'differs from the received octets', replay)
-            else:
-                chk.violation('C08:bad-crc-accepted', 'a bundle whose block CRC is wrong over the received '
-                              'octets was accepted', replay)
-        # ----- correspondence with the model
-        m_dec = bool(g.get('decoded'))
-        if m_dec != (r['decode_error'] is None):
-            if m_dec and (g.get('flags', 0) & 2):
-                chk.count('IN:outside-model admin payload (opaque in the model) fails to parse')
-            elif not m_dec and g.get('raw') and r['decode_error'] is None:
-                chk.count('IN:outside-model EID authority (non-ASCII or brackets: urlsplit NFKC / IPv6 checks)')
-            elif m_dec and r['utf8']:
-                chk.count('IN:outside-model text string that is not UTF-8')
-            elif not m_dec and r['decode_error'] is None and (r['reenc'] != bad or not r['subset']):
-                chk.count('IN:lenient real decoder (outside the supported subset)')
-            else:
-                replay['lean'] = g
-                replay['real'] = {k: r[k] for k in ('decode_error', 'crc_fail', 'accepted')}
-                chk.corr_break('IN: decode class differs (real %s, model %s)' % (r['decode_error'], m_dec), replay)
-            continue
-        if not m_dec:
-            continue
-        m_fail = sorted(set(g.get('fail', [])))
-        m_acc = g.get('seen') == 1
-        if m_fail != r['crc_fail'] or m_acc != r['accepted']:
-            if (g.get('flags', 0) & 2) and g.get('reenc') != (r['reenc'].hex() if r['reenc'] else None):
-                chk.count('IN:outside-model re-encoding of a parsed admin record')
-                continue
-            replay['lean'] = {k: g.get(k) for k in ('fail', 'seen', 'effects')}
-            replay['real'] = {k: r[k] for k in ('crc_fail', 'accepted')}
-            chk.corr_break('IN: CRC gate outcome differs between the agent and the model', replay)
-        chk.cov['traces_validated_against_impl'] += 1
+    judge_cases(chk, rx, data, cases, 'IN')
     return len(cases)
 
 
@@ -290,6 +306,8 @@ D20_LEAN_POS = 61      # d20Corrupted = d20Orig.enc.set 61 0x00
 
 def d20_class(orig, bad, detail):
     ''' which normalisation made the corruption invisible (for the report; one signature for all) '''
+    if len(orig) != len(bad):
+        return 'other'
     diffs = [i for i in range(len(orig)) if orig[i] != bad[i]]
     if any(str(d).startswith('shape:') and 'arity' in str(d) for d in detail):
         return 'array-head-count-changed (following item absorbed / ignored)'
@@ -304,6 +322,154 @@ def d20_class(orig, bad, detail):
     if len(diffs) == 1 and orig[diffs[0]] == 0x01 and bad[diffs[0]] == 0xf5:
         return 'python-equality-coercion (CBOR true == 1 accepted as the integer)'
     return 'other'
+
+
+def _ascii_crc_spec(rng, pct, ct):
+    ''' a small bundle in which the CRC octets of the payload block (type pct) and, when it has one, of
+    the primary block (type ct) are printable ASCII, i.e. valid UTF-8: then a CRC field whose CBOR
+    head says "text" instead of "bytes" still decodes '''
+    for _ in range(20000):
+        spec = {'primary': {'version': 7, 'flags': 0x40 if rng.random() < 0.5 else 0, 'crc_type': ct,
+                            'dest': ('dtn', '//node/' + G.gen_name(rng, 3)), 'src': ('ipn', [rng.randrange(1, 9999), 1]),
+                            'rpt': ('none',), 'time': rng.randrange(1, 2 ** 40), 'seq': rng.randrange(2 ** 16),
+                            'lifetime': 3600000, 'frag_off': 0, 'total_len': 0, 'crc': None},
+                'blocks': [{'type': 1, 'num': 1, 'flags': 0, 'crc_type': pct, 'crc': None, 'extra': None,
+                            'btsd': bytes(rng.randrange(256) for _ in range(rng.randrange(1, 12)))}],
+                'crc_mode': 'update'}
+        full = c02_with_crcs(spec)
+        vals = [full['blocks'][0]['crc']] + ([full['primary']['crc']] if ct else [])
+        if all(all(0x20 <= x < 0x7f for x in v) for v in vals):
+            return spec
+    return None
+
+
+def c02_with_crcs(spec):
+    from . import c02
+    return c02._with_crcs(spec)
+
+
+def check_crc_field_forms(chk, rx, n):
+    ''' CRC fields that are not a byte string of the right width: the bstr head turned into a tstr head
+    by one bit (0x42 -> 0x62, 0x44 -> 0x64) alone and inside short bursts reaching into the preceding
+    octets, and fields a sender could put there (null, text, wrong length, empty). All must be dropped. '''
+    rng = chk.rng
+    done = 0
+    for k in range(n):
+        spec = _ascii_crc_spec(rng, 1 + k % 2, [0, 2, 1][k % 3])
+        if spec is None:
+            continue
+        b = G.real_bundle(spec)
+        b.update_all_crc()
+        data = bytes(b)
+        base = rx.feed(data)
+        if not base['accepted']:
+            chk.corr_break('CRCFIELD: uncorrupted bundle is not accepted', {'hex': data.hex()})
+            continue
+        cases = []
+        for blk in G.split_blocks(data):
+            ct = blk['crc_type']
+            if ct not in (1, 2):
+                continue
+            s, e = blk['items'][-1]
+            w = 2 * ct
+            cases.append(('crc-head-bstr->tstr', [8 * s + 5], flip_bits(data, [8 * s + 5])))
+            for back in (1, 3, 4, 6, 9):
+                bits = [8 * s - back, 8 * s + 5]
+                cases.append(('crc-head-burst', bits, flip_bits(data, bits)))
+            bits = [8 * s - 2, 8 * s - 1, 8 * s + 5]
+            cases.append(('crc-head-burst', bits, flip_bits(data, bits)))
+            val = data[s + 1:e]
+            for name, item in [('crc-field-null', b'\xf6'), ('crc-field-text', G.cb_tstr(val.decode('ascii'))),
+                               ('crc-field-short', G.cb_bstr(val[:w - 1])), ('crc-field-long', G.cb_bstr(val + b'\x00')),
+                               ('crc-field-empty', G.cb_bstr(b'')), ('crc-field-undefined', b'\xf7'),
+                               ('crc-field-false', b'\xf4')]:
+                cases.append((name, None, data[:s] + item + data[e:]))
+        judge_cases(chk, rx, data, cases, 'CRCFIELD')
+        done += 1
+    chk.count('CRCFIELD:bundles', done)
+
+
+class TxAgent(object):
+    ''' a second real agent whose only TX route has a small MTU over a recording convergence layer '''
+
+    def __init__(self):
+        self.agent = G.boot_agent('dtn://txnode/', path='/tx')
+
+    def send(self, bundle, mtu, as_source=True):
+        from bp.util import BundleContainer
+        from gi.repository import GLib
+        GLib.LOOP.sources.clear()
+        cl = G.agent_tx_route(self.agent, mtu)
+        err = None
+        try:
+            self.agent.send_bundle(BundleContainer(bundle), as_source)
+        except Exception as e:  # noqa
+            err = e
+        G.agent_run_idle(self.agent)
+        GLib.LOOP.sources.clear()
+        return cl.sent, err
+
+
+def check_fragments(chk, n):
+    ''' OUT-3: bundles larger than the route MTU through Agent.send_bundle -> the fragment application ->
+    send_bundle(fragment, as_source=False); also relayed (as_source=False) unfragmented bundles whose
+    primary block was altered after reception. Every transmitted block, the rewritten primary block
+    of each fragment included, must carry a valid CRC over the transmitted octets. '''
+    rng = chk.rng
+    tx = TxAgent()
+    R = G.real()
+    sent_all = []
+    for k in range(n):
+        spec = G.gen_bundle(rng, 0, crc_mode='update', max_time=2 ** 40, nblocks=rng.choice([0, 1, 2]), sec=False)
+        p = spec['primary']
+        p['flags'] = rng.choice([0, 0x40, 0x4000, 0x60000]) | (0x20 if rng.random() < 0.3 else 0)
+        p['crc_type'] = [1, 2, 2, 1, 0][k % 5]
+        p['version'] = 7
+        p['time'] = max(1, p['time'])
+        p['lifetime'] = max(1, p['lifetime'])
+        p['frag_off'] = p['total_len'] = 0
+        if p['dest'][0] == 'none':
+            p['dest'] = ('dtn', '//dst/svc')
+        for b in spec['blocks'][:-1]:
+            b['btsd'] = b['btsd'][:40]
+        pay = spec['blocks'][-1]
+        pay['extra'] = None
+        pay['btsd'] = bytes(rng.randrange(256) for _ in range(rng.choice([60, 200, 300, 700])))
+        base_len = len(G.spec_rfc_bytes(c02_with_crcs(spec))) - len(pay['btsd'])
+        relay = (k % 4 == 3)
+        mtu = None if relay else base_len + 30 + rng.choice([1, 10, 24, 60])
+        bundle = G.real_bundle(spec)
+        if relay:
+            # a relayed bundle: received with valid CRCs, then a hop-by-hop change of the primary block
+            bundle.update_all_crc()
+            bundle = R['Bundle'](bytes(bundle))
+            bundle.primary.setfieldval('lifetime', bundle.primary.getfieldval('lifetime') + 1)
+        sent, err = tx.send(bundle, mtu, as_source=not relay)
+        replay = {'stream': 'OUT-3', 'spec': G.spec_json(spec), 'mtu': mtu, 'relayed': relay,
+                  'sent_hex': [s.hex() for s in sent]}
+        chk.case(replay, sample=(k == 0))
+        chk.count('OUT-3:%s primary crc_type=%d' % ('relayed' if relay else 'fragmented', p['crc_type']))
+        if err is not None:
+            chk.count('OUT-3:send_bundle raised %s' % type(err).__name__)
+        if not relay and len(sent) < 2:
+            chk.count('OUT-3:not fragmented (%d sent)' % len(sent))
+        else:
+            chk.count('OUT-3:transmissions', len(sent))
+        for j, s in enumerate(sent):
+            ok, detail = G.octet_crc_verdict(s)
+            if not ok:
+                rp = dict(replay, index=j, verdict=detail, sent_hex=s.hex())
+                chk.violation('C08:transmit-crc-wrong', 'Agent.send_bundle handed octets to the CL in which a block CRC '
+                              'is not valid over the octets (%s %d of %d): %s' % (
+                                  'relayed bundle' if relay else 'fragment', j + 1, len(sent), detail), rp)
+            sent_all.append((replay, s))
+        chk.cov['traces_validated_against_impl'] += 1
+    if sent_all:
+        gs = chk.driver([{'op': 'bp.gate', 'hex': s.hex(), 'own': {'dtn': b'//other/'.hex()}} for _rp, s in sent_all])
+        for (rp, s), g in zip(sent_all, gs):
+            if g.get('decoded') and g.get('fail') != []:
+                chk.corr_break('OUT-3: model CRC check rejects octets transmitted by the agent',
+                               dict(rp, sent_hex=s.hex(), lean=g))
 
 
 def d20_witness():
@@ -393,8 +559,10 @@ def run(chk):
     specs = [G.gen_bundle(rng, i, crc_mode=('update' if i % 4 else 'given'), force_crc=(i % 3 != 0)) for i in range(n_out)]
     for k in range(0, len(specs), 500):
         check_output(chk, rx, specs[k:k + 500])
+    check_fragments(chk, 40 if quick else 600)
     # ---- input
     check_d20(chk, rx)
+    check_crc_field_forms(chk, rx, 6 if quick else 60)
     n_in = 12 if quick else 50
     total = 0
     i = 0
